@@ -62,6 +62,14 @@ def pattern_wf(ex, R, p):
     if d == ex.session.enums['Pattern::PVar']: return True
     return all(pattern_wf(ex, R, dd(p.payload.f[i])) for i in range(3))
 
+def multi_wf(ex, R, mp):
+    """every equation ?v == node carries exactly as many child variables as the node has children"""
+    for t in dd(mp).f[0].items:
+        cell = {'n': t.f[1]}
+        occ = ex.call_callee('<L as lang::Language>::applied_id_occurrences', [Ref(cell, 'n')])
+        if len(occ.items) != len(t.f[2].items): return False
+    return True
+
 def run_tokens(S_, lang, n, stats, findings):
     R = S_.resolver; R.tymap.clear(); R.tymap.update({'L': lang})
     ex = S_.executor()
@@ -171,6 +179,7 @@ def run_text(S_, lang, n, which, stats, findings):
     stats['fenc'] |= set(ex.inlined); stats['lmod'] |= ex.modelled; stats['solver_s'] += ex.t_solver; stats['branches'] += ex.n_branches
 
 MULTI_SEEDS = ['?a == (u ?b)', '?a == (app ?b ?c), ?b == (u ?a)', '?a==(lam $x ?b),?b==(var $x)']
+MULTI_SPLICED = ['?a == (app ?b (var $x))', '?a == (app (var $x) ?b)', '?a == (u ?b[?c := ?d])', '?a == (lam $x (var $x))']     # not multi-patterns: a child that is not a variable
 def run_text_seeded(S_, lang, seed, max_dev, stats, findings):
     """MultiPattern::parse on every string that differs from a valid multi-pattern text in at most max_dev scalar values"""
     R = S_.resolver; R.tymap.clear(); R.tymap.update({'L': lang})
@@ -182,11 +191,14 @@ def run_text_seeded(S_, lang, seed, max_dev, stats, findings):
         devs = [z3.If(c == ord(ch), z3.BitVecVal(0, 8), z3.BitVecVal(1, 8)) for c, ch in zip(cs, seed)]
         ex_.assume(z3.ULE(sum(devs[1:], devs[0]), max_dev))
         r = ex_.call(fn, [s])
-        return (r.disc,)
+        return (r.disc, multi_wf(ex_, R, r.payload.f[0]) if r.disc == 0 else None)
     cs = [z3.BitVec('ch%d' % i, 32) for i in range(n)]
     for p in ex.explore(entry, max_paths=50000):
         stats['paths'] += 1
         m = ex_model(p['pc'])
+        if p['kind'] != 'panic' and p['result'][0] == 0 and p['result'][1] is False:
+            findings.append({'level': 'text:multi', 'lang': lang, 'n': n, 'kind': 'illformed', 'msg': 'Ok multi-pattern with an equation whose number of child variables differs from the number of children of its node', 'where': 'MultiPattern_parse', 'codepoints': string_text(m, cs)})
+            continue
         if p['kind'] == 'panic':
             findings.append({'level': 'text:multi', 'lang': lang, 'n': n, 'kind': 'panic', 'msg': p['result']['msg'], 'where': short_fn(p['result']['where'] or ''), 'codepoints': string_text(m, cs)})
         elif p['result'][0] == 0: stats.setdefault('rt_multi', []).append((lang, tuple(string_text(m, cs))))
@@ -210,6 +222,7 @@ def confirmed(f, r):
     res = r['result']
     if f['kind'] == 'roundtrip': return not (res.startswith('ok same=true') or res.startswith('err'))      # found natively; the replay repeats it
     if f['kind'] == 'panic': return res.startswith('panic')
+    if f['level'].endswith('multi'): return res.startswith('ok wf=false') or res.startswith('panic')      # printing an ill-formed multi-pattern indexes past its child list
     return res.startswith('ok wf=false')
 
 def run(tier, seed=0):
@@ -231,14 +244,16 @@ def run(tier, seed=0):
     for n in range(0, NTXT + 1): plan.append(('text:multi', 'Lb', n))
     for n in range(0, NTXT + 1): plan.append(('text:recexpr', 'Lb', n))
     for seed in (MULTI_SEEDS[:1] if tier == 'quick' else MULTI_SEEDS): plan.append(('seeded-multi', 'Lb', seed))
+    for seed in MULTI_SPLICED: plan.append(('spliced-multi', 'Lb', seed))
     for kind, lang, n in plan:
         before = stats['paths']; nf = len(findings); t1 = time.time()
         try:
             if kind == 'tokens': run_tokens(S_, lang, n, stats, findings)
             elif kind == 'seeded': run_seeded(S_, lang, n, 1 if tier == 'quick' else 2, stats, findings)
             elif kind == 'seeded-multi': run_text_seeded(S_, lang, n, 1, stats, findings)
+            elif kind == 'spliced-multi': run_text_seeded(S_, lang, n, 0 if tier == 'quick' else 1, stats, findings)
             else: run_text(S_, lang, n, kind.split(':')[1], stats, findings)
-            samples.append({'obligation': ('%s %s length %d' % (kind, lang, n)) if kind not in ('seeded', 'seeded-multi') else ('strings within 1 deviating scalar value of the valid multi-pattern text "%s" (%s)' % (n, lang)) if kind == 'seeded-multi' else 'token sequences within %d deviation(s) of the valid text "%s" (%s)' % (1 if tier == 'quick' else 2, n, lang), 'paths': stats['paths'] - before, 'findings': len(findings) - nf, 'wall_s': round(time.time() - t1, 2)})
+            samples.append({'obligation': ('%s %s length %d' % (kind, lang, n)) if kind not in ('seeded', 'seeded-multi', 'spliced-multi') else ('the text "%s" that is not a multi-pattern (a child is not a variable)%s (%s)' % (n, '' if tier == 'quick' else ' and every string within 1 deviating scalar value', lang)) if kind == 'spliced-multi' else ('strings within 1 deviating scalar value of the valid multi-pattern text "%s" (%s)' % (n, lang)) if kind == 'seeded-multi' else 'token sequences within %d deviation(s) of the valid text "%s" (%s)' % (1 if tier == 'quick' else 2, n, lang), 'paths': stats['paths'] - before, 'findings': len(findings) - nf, 'wall_s': round(time.time() - t1, 2)})
         except (Unsupported, Budget) as e:
             inconclusive.append('%s %s %s: %s' % (kind, lang, n, str(e)[:300]))
     # print/parse round trip on every parsed value: one representative text per Ok path, run natively
